@@ -321,6 +321,12 @@ impl<Aux> Vm<'_, Aux> {
             self.unwind_failed_call(frames, stack_offset);
             return Err(err);
         }
+        if self.runtime_data.call_stack.len() != frames + 1 {
+            // the loop ended without returning to the trap frame: the callee ran an `Abort` card.
+            // Drop what it left behind and pass the request to end the program on to `run`
+            self.unwind_failed_call(frames, stack_offset);
+            return Err(ExecutionErrorPayload::ExitCode(0));
+        }
         // pop the trap callframe
         self.runtime_data.call_stack.pop();
         Ok(self.stack_pop())
@@ -828,7 +834,12 @@ impl<Aux> Vm<'_, Aux> {
         // the program ends with Exit, which does not return: drop the entry frame (and whatever an
         // aborted run left behind) so that runs do not accumulate call frames
         self.runtime_data.call_stack.clear();
-        result
+        match result {
+            // an `Abort` card inside a function that a native function called back ends the program
+            // like one in the program itself does
+            Err(err) if err.payload.is_exit_request() => Ok(()),
+            result => result,
+        }
     }
 
     #[inline]
